@@ -293,7 +293,7 @@ theorem nonvacuous_balanced_domain :
   placeholder text is being expanded; the default is evaluated before the key is looked up).
 
   Full statement (NOT proved): the same for templates whose keys are templates themselves
-  (`ph (key : Tmpl) …`), and the converse direction (the resolver ends ⇒ `evalT` ends).  With
+  (`ph (key : Tmpl) …`).  With
   nested keys the resolved key text can contain separators that come out of substituted values
   or of verbatim blocks, so the resolver's split at the FIRST separator of the resolved text no
   longer follows the AST; an extra hypothesis on the table (separator-free outputs) is needed. -/
@@ -306,6 +306,13 @@ theorem resolve_refines_evalT_flat_partial {tt : TTable} (hT : tt.WF) (n : Nat) 
     (st : List Toks) (ht : t.WF) (h : evalT tt n t st ≠ .outOfFuel) :
     ∃ k, ∀ m, k ≤ m → resolve id m (toTable tt) (render t) st = evalT tt n t st :=
   (evalT_refines hT n t st _ ht rfl h).1.fuel
+
+/-- both directions, fuel-free: the resolver ends with `r` (a text or a circular reference) on
+    the rendered template iff the reference evaluator ends with `r` -/
+theorem resolve_iff_evalT_flat_partial {tt : TTable} (hT : tt.WF) (t : Tmpl) (st : List Toks)
+    (ht : t.WF) (r : Res) :
+    Resolves id (toTable tt) (render t) st r ↔ ∃ m, evalT tt m t st = r ∧ r ≠ .outOfFuel :=
+  resolves_iff_evalT hT t st ht r
 
 /-- same string, or both circular (with the same text) -/
 theorem resolve_refines_evalT_flat_cases_partial {tt : TTable} (hT : tt.WF) (n : Nat) (t : Tmpl)
@@ -394,8 +401,8 @@ theorem nonvacuous_evalT_cycle :
     (re-lexing of glued delimiter halves) in the balanced instance.
 
   * resolve_refines_evalT — PROVED on the flat fragment (`resolve_refines_evalT_flat_partial`:
-    plain keys, template defaults, template values), direction evalT ends ⇒ resolver ends with
-    the same result.  Not proved: nested keys; the converse direction.  The harness compares with
+    plain keys, template defaults, template values; `resolve_iff_evalT_flat_partial` gives both
+    directions).  Not proved: nested keys.  The harness compares with
     an independently written Go recursive-descent reference on the full grammar.
 -/
 
